@@ -463,14 +463,17 @@ Section Proofs.
   Lemma item_of_level l : item_of (level_text l) (level_text l).
   Proof. apply item_of_bare. destruct l; reflexivity. Qed.
 
+  Lemma source_cut_wf file : wf_bytes file = true -> wf_bytes (source_cut file) = true.
+  Proof. intros H. unfold source_cut. destruct file; [reflexivity|]. apply wf_bytes_skipn. exact H. Qed.
+
   Theorem text_line_faithful chain r :
-    wf_chain isSpace chain = true -> wf_record isSpace r = true ->
+    wf_chain isSpace chain = true -> wf_record isSpace r = true -> src_agrees r = true ->
     exists body,
       handle isSpace isPrint sp_print (derive isSpace isPrint sp_print chain) r = body ++ [10] /\
       ~ In 10 body /\
       tokenize body = Some (expected_pairs chain r).
   Proof.
-    intros Hchain Hrec.
+    intros Hchain Hrec Hagree.
     unfold wf_record in Hrec.
     apply andb_true_iff in Hrec as [Hrec Hattrs]. apply andb_true_iff in Hrec as [Hrec Hmsg].
     apply andb_true_iff in Hrec as [Hrec Hsrc]. apply andb_true_iff in Hrec as [_ Htime].
@@ -493,8 +496,14 @@ Section Proofs.
     match goal with |- context [LoggerText.append_attrs _ _ _ ?b (groupPrefix h) (attrs r)] =>
       destruct (append_attrs_toks (attrs r) b comps Hcomps Hattrs) as (outa & Ea & Ta) end.
     rewrite Hg, Ea.
-    destruct (src r) as [s|].
-    - pose proof (toks_one _ _ _ _ Iksource (item_of_text_string s Hsrc)) as Tsrc.
+    unfold src_agrees in Hagree.
+    destruct (src r) as [[file line]|]; cbn [fst snd] in *.
+    - apply andb_true_iff in Hsrc as [Hfile Hline]. apply bytes_eqb_eq in Hagree.
+      assert (Hsv : wf_bytes (source_cut file ++ 58 :: line) = true).
+      { apply wf_bytes_app. split; [apply source_cut_wf; exact Hfile|].
+        change (58 :: line) with ([58] ++ line). apply wf_bytes_app. split; [reflexivity|exact Hline]. }
+      pose proof (toks_one _ _ _ _ Iksource (item_of_text_string _ Hsv)) as Tsrc.
+      unfold append_text_source, append_text_string. unfold source_value. cbn [fst snd]. rewrite <- Hagree.
       pose proof (toks_app _ _ Tlevel _ _ (toks_app _ _ Tsrc _ _ (toks_app _ _ Tmsg _ _ (toks_app _ _ Tpre _ _ Ta)))) as T.
       cbn [app] in T.
       eexists. split; [|split; [|apply (tokenize_toks _ _ _ _ _ _ Iktime Itime T)]].
@@ -509,3 +518,111 @@ Section Proofs.
         intros [H|[H|[H|H]]]; [exact (proj2 Iktime H)|lia|exact (proj2 Itime H)|exact (toks_no_newline _ _ T H)].
   Qed.
 End Proofs.
+
+(** ---- appendTextSource: on every path with at least two '/' the Go loop yields the last two
+    path elements, as the specification's [last_two] does ---- *)
+
+Lemma src_loop_none file idx first :
+  (forall j, (1 <= j <= idx)%nat -> nth j file 0 <> 47) -> src_loop file idx first = O.
+Proof.
+  induction idx as [|i IH]; intros H; [reflexivity|]. cbn [src_loop].
+  assert (Hn : nth (S i) file 0 <> 47) by (apply H; lia).
+  replace (nth (S i) file 0 =? 47) with false by lia. apply IH. intros j Hj. apply H. lia.
+Qed.
+
+Lemma src_loop_true file idx p :
+  (1 <= p <= idx)%nat -> nth p file 0 = 47 -> (forall j, (p < j <= idx)%nat -> nth j file 0 <> 47) ->
+  src_loop file idx true = p.
+Proof.
+  induction idx as [|i IH]; intros Hp Hs Hn; [lia|]. cbn [src_loop].
+  destruct (Nat.eq_dec p (S i)) as [->|Hne].
+  - rewrite Hs. reflexivity.
+  - assert (Hx : nth (S i) file 0 <> 47) by (apply Hn; lia).
+    replace (nth (S i) file 0 =? 47) with false by lia. apply IH; [lia|exact Hs|]. intros j Hj. apply Hn. lia.
+Qed.
+
+Lemma src_loop_false file idx q :
+  (1 <= q <= idx)%nat -> nth q file 0 = 47 -> (forall j, (q < j <= idx)%nat -> nth j file 0 <> 47) ->
+  src_loop file idx false = src_loop file (q - 1) true.
+Proof.
+  induction idx as [|i IH]; intros Hq Hs Hn; [lia|]. cbn [src_loop].
+  destruct (Nat.eq_dec q (S i)) as [->|Hne].
+  - rewrite Hs. cbn [N.eqb Pos.eqb]. f_equal. lia.
+  - assert (Hx : nth (S i) file 0 <> 47) by (apply Hn; lia).
+    replace (nth (S i) file 0 =? 47) with false by lia. apply IH; [lia|exact Hs|]. intros j Hj. apply Hn. lia.
+Qed.
+
+Definition no_slash (s : bytes) : Prop := Forall (fun b => b <> 47) s.
+
+Lemma no_slash_nth s k : no_slash s -> (k < length s)%nat -> nth k s 0 <> 47.
+Proof. intros H Hk. unfold no_slash in H. rewrite Forall_forall in H. apply H. apply nth_In. exact Hk. Qed.
+
+Lemma source_cut_two_slashes pre a b :
+  no_slash a -> no_slash b -> source_cut (pre ++ 47 :: a ++ 47 :: b) = a ++ 47 :: b.
+Proof.
+  intros Ha Hb.
+  set (file := pre ++ 47 :: a ++ 47 :: b).
+  assert (Hlen : length file = (length pre + S (length a + S (length b)))%nat).
+  { unfold file. rewrite app_length. cbn [length]. rewrite app_length. cbn [length]. reflexivity. }
+  set (q := (length pre + S (length a))%nat).
+  assert (Hfile2 : file = (pre ++ 47 :: a) ++ 47 :: b) by (unfold file; rewrite <- app_assoc; reflexivity).
+  assert (Hq : nth q file 0 = 47).
+  { rewrite Hfile2. replace q with (length (pre ++ 47 :: a)) by (rewrite app_length; reflexivity). apply nth_middle. }
+  assert (Hafter : forall j, (q < j <= length file - 1)%nat -> nth j file 0 <> 47).
+  { intros j Hj. rewrite Hfile2. rewrite app_nth2 by (rewrite app_length; cbn [length]; unfold q in Hj; lia).
+    rewrite app_length. cbn [length]. fold q.
+    destruct (j - q)%nat as [|k] eqn:Ek; [lia|]. cbn [nth]. apply no_slash_nth; [exact Hb|]. lia. }
+  assert (Hmid : forall j, (length pre < j <= q - 1)%nat -> nth j file 0 <> 47).
+  { intros j Hj. unfold file. rewrite app_nth2 by lia.
+    destruct (j - length pre)%nat as [|k] eqn:Ek; [lia|]. cbn [nth].
+    rewrite app_nth1 by (unfold q in Hj; lia). apply no_slash_nth; [exact Ha|]. unfold q in Hj. lia. }
+  assert (Hloop : src_loop file (length file - 1) false = length pre).
+  { rewrite (src_loop_false file (length file - 1) q); [|unfold q; lia|exact Hq|exact Hafter].
+    destruct (length pre) as [|n] eqn:Ep.
+    - apply src_loop_none. intros j Hj. apply Hmid. lia.
+    - apply src_loop_true; [unfold q; lia| |intros j Hj; apply Hmid; lia].
+      unfold file. rewrite <- Ep. apply nth_middle. }
+  unfold source_cut. fold file. destruct file as [|x l] eqn:Ef; [cbn in Hlen; lia|].
+  rewrite Hloop. rewrite <- Ef. unfold file.
+  change (S (length pre)) with (length pre + 1)%nat || idtac.
+  replace (pre ++ 47 :: a ++ 47 :: b) with ((pre ++ [47]) ++ a ++ 47 :: b) by (rewrite <- app_assoc; reflexivity).
+  replace (S (length pre)) with (length (pre ++ [47])) by (rewrite app_length; cbn [length]; lia).
+  rewrite skipn_app, skipn_all, Nat.sub_diag. reflexivity.
+Qed.
+
+Lemma rtake_no_slash n x y : no_slash x -> rtake n (x ++ y) = x ++ rtake n y.
+Proof.
+  induction 1 as [|c x Hc Hx IH]; [reflexivity|]. cbn [app rtake].
+  replace (c =? 47) with false by lia. rewrite IH. reflexivity.
+Qed.
+
+Lemma no_slash_rev s : no_slash s -> no_slash (rev s).
+Proof. unfold no_slash. intros H. apply Forall_rev. exact H. Qed.
+
+Lemma last_two_two_slashes pre a b :
+  no_slash a -> no_slash b -> last_two (pre ++ 47 :: a ++ 47 :: b) = a ++ 47 :: b.
+Proof.
+  intros Ha Hb. unfold last_two.
+  assert (Hr : rev (pre ++ 47 :: a ++ 47 :: b) = rev b ++ 47 :: rev a ++ 47 :: rev pre).
+  { rewrite rev_app_distr. cbn [rev]. rewrite rev_app_distr. cbn [rev].
+    repeat (rewrite <- app_assoc; cbn [app]). reflexivity. }
+  rewrite Hr. rewrite (rtake_no_slash 1 (rev b)) by (apply no_slash_rev; exact Hb).
+  cbn [rtake N.eqb Pos.eqb]. rewrite (rtake_no_slash 0 (rev a)) by (apply no_slash_rev; exact Ha).
+  cbn [rtake N.eqb Pos.eqb]. rewrite app_nil_r.
+  assert (Hl : rev (rev b ++ 47 :: rev a) = a ++ 47 :: b).
+  { rewrite rev_app_distr. cbn [rev]. rewrite !rev_involutive. rewrite <- app_assoc. reflexivity. }
+  rewrite Hl.
+  assert (Hne : Nat.eqb (length (a ++ 47 :: b)) (length (pre ++ 47 :: a ++ 47 :: b)) = false).
+  { apply Nat.eqb_neq. rewrite !app_length. cbn [length]. rewrite app_length. cbn [length]. lia. }
+  destruct (a ++ 47 :: b) as [|c t] eqn:E; [destruct a; discriminate|].
+  rewrite Hne, andb_false_r. reflexivity.
+Qed.
+
+(** the Go loop and the specification agree on every path with at least two '/' *)
+Theorem source_cut_agrees pre a b :
+  no_slash a -> no_slash b ->
+  bytes_eqb (source_cut (pre ++ 47 :: a ++ 47 :: b)) (last_two (pre ++ 47 :: a ++ 47 :: b)) = true.
+Proof.
+  intros Ha Hb. apply bytes_eqb_eq. rewrite source_cut_two_slashes, last_two_two_slashes by assumption. reflexivity.
+Qed.
+
